@@ -278,7 +278,7 @@ fn rejected_case(idx: u64, rec: &mut Rec) {
     let method = METHODS[take(9)];
     let host = HOSTS[take(5)];
     let cl = CLS[take(9)];
-    let te = TES[take(4)];
+    let te = TES[take(5)];
     let despite = take(2) == 1;
     let writes = take(3);
     let cfg = build(ver, method, host, cl, te, despite);
@@ -361,7 +361,7 @@ impl Property for P {
     fn workloads(&self, tier: Tier) -> Vec<Workload> {
         vec![
             Workload::new("histories", tier.pick(6_000, 1_500_000), false, "random exchange histories + advance probes at every step"),
-            Workload::new("request-menu", 5 * 9 * 5 * 9 * 4 * 2 * 3, true, "every request shape of the C17 product (valid and invalid) x 0/1/2 head writes, then an advance attempt"),
+            Workload::new("request-menu", 5 * 9 * 5 * 9 * 5 * 2 * 3, true, "every request shape of the C17 product (valid and invalid) x 0/1/2 head writes, then an advance attempt"),
         ]
     }
     fn run_case(&self, wl: &str, idx: u64, seed: u64, rec: &mut Rec) {
